@@ -72,6 +72,14 @@ def failing_calls(u, rng):
     calls.append(('shape factory: classnames given as a string, parent=', lambda: draw.Frame(parent=cont, classnames='gr1', width='1cm', height='1cm'), None))
     calls.append(('shape factory: empty classnames, parent=', lambda: draw.Ellipse(parent=cont, classnames=[], width='1cm', height='1cm'), None))
     calls.append(('shape factory: missing required attribute, parent=', lambda: draw.Line(parent=cont, stylename=style.Style(name='gr9', family='graphic')), None))
+    # not failing calls today: a style whose name is taken is renamed and added. Listed because a refusal, should one ever be
+    # raised here, has to leave the document as it was like any other (a call that does not raise is skipped by the caller)
+    if styles is not None:
+        if ST.parentNode is None: styles.addElement(ST)                     # 'N1' is registered (before the snapshot is taken)
+        autos_ = u.doc.automaticstyles
+        calls.append(('addElement of a style whose name is registered', lambda: styles.addElement(style.Style(name='N1', family='text')), None))
+        calls.append(('factory with parent= of a style whose name is registered', lambda: style.Style(name='N1', family='text', parent=autos_), None))
+        calls.append(('insertBefore of a style whose name is registered', lambda: styles.insertBefore(style.Style(name='N1', family='text'), ST), None))
     # Element methods on existing nodes
     calls.append(('addElement illegal child (fresh)', lambda: LI.addElement(text.Span()), None))
     calls.append(('addElement illegal child (existing node, maybe attached)', lambda: LI.addElement(SPAN), ('dom_step', '(addelement %d %d 0)' % (f[7], f[2]))))
